@@ -614,8 +614,26 @@ pub fn run(ctx: &Ctx) -> Report {
         let special8: [u64; 14] = [0x7ff8_0000_0000_0000, 0x7ff0_0000_0000_0001, 0xfff8_0000_0000_0000, u64::MAX, 0x7ff0_0000_0000_0000, 0xfff0_0000_0000_0000, 0xbff0_0000_0000_0000, 0x8000_0000_0000_0000, 1, 0x7fef_ffff_ffff_ffff, 0, 3, 4, 0x3ff0_0000_0000_0000];
         let special4: [u32; 7] = [0x7fc0_0000, 0xffc0_0000, 0x7f80_0000, 0xff80_0000, 0xbf80_0000, 0x7f7f_ffff, 0x0000_0001];
         let nwords = ((base.len() - 5760) / 8).min(12);
+        // multi-order map: UNIQ values at the borders of the depths around MOCORDER (first / last cell of the depth,
+        // first index outside the depth, first cell of the next depths)
+        let mut special8: Vec<u64> = special8.to_vec();
+        if name == "mom" {
+          let cards = find_cards(base);
+          let mo = cards.iter().find(|(_, k)| k.trim() == "MOCORDER").and_then(|(off, _)| String::from_utf8_lossy(&base[off + 10..off + 30]).trim().parse::<u32>().ok());
+          if let Some(d) = mo {
+            for k in [d.saturating_sub(1), d, d + 1, d + 2] {
+              if k <= 29 {
+                let first = 4u64 << (2 * k);
+                let n = 12u64 << (2 * k);
+                for v in [first - 1, first, first + 1, first + n - 1, first + n, 4 * first - 1, 4 * first, 4 * first + 1] {
+                  special8.push(v);
+                }
+              }
+            }
+          }
+        }
         for j in 0..nwords {
-          for v in special8 {
+          for v in special8.iter().copied() {
             let mut d = base.clone();
             d[5760 + 8 * j..5760 + 8 * j + 8].copy_from_slice(&v.to_be_bytes());
             value_cases.push((name.clone(), format!("data word {} <- {:#018x}", j, v), d));
